@@ -53,6 +53,11 @@ def faults(quick: bool):
                 "versions:\n  v0: ../v0\n  v1: ../v1\n")))
     out.append(("evolution:incompatible-version-listed-last", ("files", {"main/model.yml": BREAKING_MAIN, "v1/_package.yml": "namespace: Main\nimports:\n  - ../lib\n", "v1/model.yml": BREAKING_MAIN},
                 "versions:\n  v1: ../v1\n  v0: ../v0\n")))
+    # a previous version archived as a snapshot of the whole source tree: its import is written with the same relative text as the current one
+    arch = {"arch/v1/main/_package.yml": "namespace: Main\nimports:\n  - ../lib\n", "arch/v1/main/model.yml": C09.VALID_MAIN, "arch/v1/lib/_package.yml": "namespace: Lib\n"}
+    out.append(("archive:unknown-type-in-archived-import", ("files", dict(arch, **{"arch/v1/lib/lib.yml": C09.VALID_LIB + "Broken: !record\n  fields:\n    x: NoSuchType\n"}), "versions:\n  v0: ../v0\n  v1: ../arch/v1/main\n")))
+    out.append(("archive:garbage-in-archived-import", ("files", dict(arch, **{"arch/v1/lib/lib.yml": C09.VALID_LIB, "arch/v1/lib/zz.yml": "]]]: [\n"}), "versions:\n  v1: ../arch/v1/main\n  v0: ../v0\n")))
+    out.append(("archive:bad-manifest-in-archived-import", ("files", dict(arch, **{"arch/v1/lib/lib.yml": C09.VALID_LIB, "arch/v1/lib/_package.yml": "namespace: Lib\nbogus: 1\n"}), "versions:\n  v0: ../v0\n  v1: ../arch/v1/main\n")))
     out.append(("evolution:missing-version-dir", ("manifest", "versions:\n  v0: ../v0\n  v1: ../nowhere\n")))
     out.append(("evolution:duplicate-label", ("manifest", "versions:\n  v0: ../v0\n  v0: ../v0\n")))
     out.append(("manifest:unknown-key", ("manifest_append", "bogus: 1\n")))
